@@ -602,7 +602,7 @@ def _wrap_method(cls, name):
             pre = cs.copy() if cs is not None else None
         fp_before = None
         if name in MUTATORS:
-            if sh is not None and len(sh.ops) > 400 and (len(sh.ops) + STATS['events']) % 16:
+            if sh is not None and len(sh.ops) > 400 and (len(sh.ops) + STATS['events']) % (16 if len(sh.ops) <= 1500 else 256):
                 STATS["reject_atomicity_sampled_out_on_long_circuit"] += 1   # (a fingerprint costs O(length): 1 call in 16)
             else:
                 fp_before = circuit_fingerprint(self)
